@@ -50,4 +50,33 @@ theorem C04_latest_refines_reachable (ops : List Op) (hops : ∀ op ∈ ops, op.
     ∃ l, IsLog (run {} ops) l ∧ getLatestReferenceUpdaterEntry Fix.all o (run {} ops) = latestSpec o l := by
   obtain ⟨l, hl, hb, _⟩ := readyLog_run ops {} [] readyLog_empty (C03_numbered_admissible ops hops {})
   exact ⟨l, hl, C04_latest_refines o _ l hl hb⟩
+/-- The same for `GetFirstReferenceUpdaterEntryForRef` / `GetFirstEntry`: on every non-empty log
+recordable by numbered operations from the empty repository, the reader returns what the list
+specification says (the oldest matching entry with every annotation of the log on it). -/
+theorem C04_first_refines_reachable (ops : List Op) (hops : ∀ op ∈ ops, op.Named ∧ op.isLegacy = false)
+    (ref : String) :
+    ∃ l, IsLog (run {} ops) l ∧ ∀ x rest, l = x :: rest →
+      getFirstReferenceUpdaterEntryForRef ref (run {} ops) = firstSpec ref (x :: rest) .notFound := by
+  obtain ⟨l, hl, _, _⟩ := readyLog_run ops {} [] readyLog_empty (C03_numbered_admissible ops hops {})
+  refine ⟨l, hl, fun x rest hx => ?_⟩
+  subst hx
+  have hl' := hl
+  unfold IsLog at hl'
+  cases ht : (run {} ops).tip with
+  | none => rw [ht] at hl'; simp only at hl'; cases hl'
+  | some t =>
+    rw [ht] at hl'
+    simp only at hl'
+    obtain ⟨y, rest', hxl, hge, hst⟩ := hl'.steps
+    cases hxl
+    exact C04_first_refines ref (run {} ops) x rest .notFound (by simp [getLatestEntry, ht, hge]) hst
+/-- non-vacuity: a two-operation history meets the hypothesis and its log is not empty -/
+example : (∀ op ∈ [Op.reference "refs/heads/main" 8, Op.reference "refs/heads/feature" 9],
+    op.Named ∧ op.isLegacy = false) ∧
+    (run {} [Op.reference "refs/heads/main" 8, Op.reference "refs/heads/feature" 9]).tip ≠ none := by
+  refine ⟨?_, by decide⟩
+  intro op hop
+  simp only [List.mem_cons, List.mem_nil_iff, or_false] at hop
+  rcases hop with h | h <;> subst h <;> exact ⟨by simp [Op.Named], rfl⟩
+
 end Gittuf.RSL
